@@ -34,7 +34,7 @@ func (f fieldURI) isEmpty() bool {
 
 func (f *fieldURI) push(kind fieldURIComponentKind, field string, index uint64) {
 	f.Parts = append(f.Parts, fieldURIComponent{
-		kind:      0,
+		kind:      kind,
 		fieldName: field,
 		index:     index,
 	})
@@ -114,7 +114,7 @@ func deepCastRecursive(val Value, typ ast.Type, span errors.Span, allowCasts boo
 
 			newUri := fieldURI.clone()
 			newUri.push(componentKindOptionInner, "", 0)
-			innerCast, i := deepCastRecursive(valInner, typInner, span, allowCasts, fieldURI)
+			innerCast, i := deepCastRecursive(valInner, typInner, span, allowCasts, newUri)
 			if i != nil {
 				return nil, i
 			}
